@@ -62,8 +62,8 @@ EXHAUSTIVE_SCOPE = {
              "keys: all sequences len<=2 over 9 emacs keys and 9 vi keys (+150 sampled of len 3-5 each); fully modelled "
              "emacs keys: all sequences len<=3 over {a, b, backspace, left, c-k, c-_, redo} (+250 sampled of len 4-5); "
              "fully modelled vi keys: all sequences len<=3 over {i, a, x, u, escape, redo} (+200 sampled of len 4-6)",
-    "thorough": "api: all sequences len<=5 over 8 calls x 2 initial docs, all command sequences len<=6 over 7 commands; "
-                "keys: all sequences len<=3 over 9 emacs keys and 9 vi keys (+1500 sampled of len 4-6 each); fully "
+    "thorough": "api: all sequences len<=5 over 8 calls x 2 initial docs, all command sequences len<=5 over 7 commands; "
+                "keys: all sequences len<=3 over 9 emacs keys and 9 vi keys (+1000 sampled of len 4-6 each); fully "
                 "modelled emacs keys: all sequences len<=4 over {a, b, backspace, left, c-k, c-_, redo} (+2500 sampled "
                 "of len 5-7); fully modelled vi keys: all sequences len<=4 over {i, a, x, u, escape, redo} (+2000 "
                 "sampled of len 5-8)"}
@@ -398,6 +398,13 @@ async def _session(case):
                     kp.feed(_Flush)
                     kp.process_keys()
                     continue
+                if name == "<kpreset>":
+                    # KeyProcessor.reset() (what Application.reset() does): forgets the previous handler
+                    kp.reset()
+                    recs.append({"kp_reset": True, "post": (buf.text, buf.cursor_position),
+                                 "prev": hid_of(kp._previous_handler), "U": list(buf._undo_stack),
+                                 "R": list(buf._redo_stack), "fed": i})
+                    continue
                 if name in ("c-m", "c-j"):
                     # Enter accepts (and resets) outside multiline insert mode: a new session, not generated
                     ins = (app.vi_state.input_mode == InputMode.INSERT) if mode == EditingMode.VI else True
@@ -449,6 +456,9 @@ def keys_model(case):
     tr = trace(case)
     out = [f"init {enc_str(case['text'])} {case['cur']}"]
     for r in tr["recs"]:
+        if r.get("kp_reset"):
+            out.append("kpreset")
+            continue
         atoms = " ".join(r["atoms"]) if r["atoms"] else f"E {enc_str(r['post'][0])} {r['post'][1]}"
         out.append(f"call {r['h']} {r['r0']} {r['r1']} {atoms}")
     out += ["undo"] * len(tr["tail"])
@@ -490,7 +500,7 @@ def _is_char_delete(r, key):
 
 def keys_oracle(case):
     tr = trace(case)
-    recs = tr["recs"]
+    recs = [r for r in tr["recs"] if not r.get("kp_reset")]
     v = []
     names = [k for k, _ in case["ops"]]
     odd = "f10" in names        # a harness binding that edits without saving: only soundness is required
@@ -681,14 +691,14 @@ EMACS_TOKENS = (
      ["escape", "u"], ["escape", "y"], ["escape", "\\"], ["escape", "3"], ["escape", "2", "a"], ["escape"],
      ["c-q", "a"], ["c-z"], ["c-@"], ["c-g"], ["c-left"], ["c-right"], ["c-home"], ["c-end"],
      ["escape", "<"], ["escape", ">"], ["c-n"], ["c-p"], ["pageup"], ["pagedown"], ["c-m"],
-     ["c-x", "("], ["c-x", ")"], ["c-x", "e"], ["<bracketed-paste>"], ["<flush>"], ["escape", "w"]])
+     ["c-x", "("], ["c-x", ")"], ["c-x", "e"], ["<bracketed-paste>"], ["<flush>"], ["escape", "w"], ["<kpreset>"]])
 VI_TOKENS = (
     [[c] for c in ["a", "b", "x", "i", "w", "d", "u", "u", "h", "l", "0", "$", "2", "3", "p", "P", "y", "c", "A", "I",
                    "D", "C", "X", "s", "J", "o", "O", "~", "e", "v", "k", "j", "G", "R", " ", "世"]] +
     [["escape"], ["escape"], ["escape"], ["c-h"], ["c-h"], ["delete"], ["left"], ["right"], ["c-w"], ["c-v", "a"],
      ["c-m"], ["d", "d"], ["d", "w"], ["c", "w"], ["y", "y"], ["r", "z"], ["g", "g"], ["f12"], ["f12"], ["f9"],
      ["escape", "u"], ["escape", "u"], ["escape", "2", "u"], ["escape", "3", "u"], ["i", "a", "b", "escape"],
-     ["<bracketed-paste>"], ["<flush>"], ["c-o"], ["up"], ["down"], ["c-k"], ["c-t"]])
+     ["<bracketed-paste>"], ["<flush>"], ["c-o"], ["up"], ["down"], ["c-k"], ["c-t"], ["<kpreset>"]])
 
 
 def _flatten(tokens, rng=None):
@@ -730,13 +740,13 @@ def _api_cases(quick, rng):
             if n <= 4:
                 yield {"kind": "api", "text": "ab", "cur": 1, "ops": [list(o) for o in tup]}
     # ---- api, exhaustive command sequences (save before every edit)
-    maxlen = 4 if quick else 6
+    maxlen = 4 if quick else 5
     for n in range(1, maxlen + 1):
         for tup in itertools.product("ABHLKUR", repeat=n):
             ops = [list(o) for c in tup for o in CMD_ALPHA[c]]
             yield {"kind": "api", "text": "ab" if n % 2 else "", "cur": 1 if n % 2 else 0, "disc": True, "ops": ops}
     # ---- api, random
-    for _ in range(2000 if quick else 40000):
+    for _ in range(2000 if quick else 20000):
         n = rng.choice([0, 1, 2, 3, 5, 8, 20])
         text = "".join(rng.choice(RAND_CHARS) for _ in range(n))
         cur = rng.choice([0, len(text), rng.randrange(0, len(text) + 1)])
@@ -784,12 +794,12 @@ def _key_cases(quick, rng):
         if quick:
             tups += [tuple(rng.choice(alpha) for _ in range(rng.choice([3, 3, 4, 5]))) for _ in range(150)]
         else:
-            tups += [tuple(rng.choice(alpha) for _ in range(rng.choice([4, 4, 5, 6]))) for _ in range(1500)]
+            tups += [tuple(rng.choice(alpha) for _ in range(rng.choice([4, 4, 5, 6]))) for _ in range(1000)]
         for tup in tups:
             odd = len(tup) % 2
             kcases.append({"kind": "keys", "mode": mode, "multiline": False, "text": "xy" if odd else "",
                            "cur": 1 if odd else 0, "history": [], "ops": _flatten([[k] for k in tup])})
-    for _ in range(350 if quick else 8000):
+    for _ in range(350 if quick else 6000):
         mode = rng.choice(["emacs", "vi"])
         toks = EMACS_TOKENS if mode == "emacs" else VI_TOKENS
         n = rng.choice([0, 0, 1, 2, 3, 6, 12])
@@ -828,7 +838,7 @@ def _key_cases(quick, rng):
         odd = len(tup) % 2
         ecases.append({"kind": "ekeys", "multiline": False, "text": "xy" if odd else "", "cur": 1 if odd else 0,
                        "ops": [[k, k if len(k) == 1 else None] for k in tup]})
-    for _ in range(150 if quick else 3000):
+    for _ in range(150 if quick else 2000):
         n = rng.choice([0, 1, 2, 3, 6, 12])
         text = "".join(rng.choice(["a", "b", " ", "x", "\n", "世"]) for _ in range(n))
         if rng.random() < 0.5:
@@ -851,7 +861,7 @@ def _key_cases(quick, rng):
         m = len(tup) % 3
         vcases.append({"kind": "vkeys", "multiline": m == 2, "text": ["", "xy", "ab\ncd"][m], "cur": [0, 1, 2][m],
                        "ops": [[k, k if len(k) == 1 else None] for k in tup]})
-    for _ in range(150 if quick else 3000):
+    for _ in range(150 if quick else 2000):
         n = rng.choice([0, 1, 2, 3, 6, 12])
         text = "".join(rng.choice(["a", "b", " ", "x", "\n", "世"]) for _ in range(n))
         if rng.random() < 0.5:
@@ -924,7 +934,7 @@ def nontrivial(case):
     if case["kind"] == "api":
         return any(o[0] in ("undo", "redo") for o in case["ops"]) and any(o[0] == "save" for o in case["ops"])
     tr = trace(_as_keys(case))
-    return any(r["atoms"] and tuple(r["pre"]) != tuple(r["post"]) for r in tr["recs"])
+    return any(r.get("atoms") and tuple(r["pre"]) != tuple(r["post"]) for r in tr["recs"])
 
 
 def sample_view(case):
@@ -952,6 +962,8 @@ def distribution(cases):
                 nk = tr["note"].split(" at key")[0][:40]
                 d["sessions_cut_short"][nk] = d["sessions_cut_short"].get(nk, 0) + 1
             for r in tr["recs"]:
+                if r.get("kp_reset"):
+                    continue
                 d["key_calls"] += 1
                 if r["atoms"] and tuple(r["pre"]) != tuple(r["post"]):
                     d["undo_cmds_changing" if "U" in r["atoms"] else "redo_cmds_changing"] += 1
